@@ -2,6 +2,7 @@ package crl
 
 import (
 	"encoding/json"
+	"math/big"
 	"time"
 
 	"github.com/zmap/zcrypto/encoding/asn1"
@@ -67,7 +68,7 @@ var (
 type crlNumberExtension struct {
 	ID        asn1.ObjectIdentifier
 	Critical  bool `asn1:"optional"`
-	CRLNumber int
+	CRLNumber *big.Int
 }
 
 // TODO: handle additional CRL Extensions
@@ -99,7 +100,9 @@ type RevocationData struct {
 
 // ListExtensionData - Data from optional, non-critical pkix.CertificateList extensions
 type ListExtensionData struct {
-	CRLNumber int
+	// CRLNumber is the value of the cRLNumber extension (RFC 5280, section
+	// 5.2.3: up to 20 octets); nil if the CRL has none or it does not parse.
+	CRLNumber *big.Int
 	AuthKeyID x509.SubjAuthKeyId `json:"authority_key_id,omitempty"`
 }
 
@@ -113,7 +116,9 @@ func gatherListExtensionInfo(certList *pkix.CertificateList, ret *RevocationData
 	for _, extension := range certList.TBSCertList.Extensions {
 		if extension.Id.Equal(crlNumberExtensionOID) {
 			var ext crlNumberExtension
-			asn1.Unmarshal(extension.Value, &ext.CRLNumber)
+			if _, err := asn1.Unmarshal(extension.Value, &ext.CRLNumber); err != nil {
+				ext.CRLNumber = nil
+			}
 			ret.CRLExtensions.CRLNumber = ext.CRLNumber
 		} else if extension.Critical {
 			ret.UnknownCriticalCRLExtensions = append(ret.UnknownCriticalCRLExtensions, extension)
